@@ -20,6 +20,9 @@ Strings of the Go side travel as hex of their bytes (`-` = empty).
   pubdec <r1|k1> <hex>              -> <X|Y hex>|err   (*PublicKey).DecodeBytes on secp256r1 / secp256k1
   pubenc <k> <c|u>                  -> <hex>           Bytes() / UncompressedBytes()
   sigjoin <r dec> <s dec>           -> <hex>           getSignatureSlice ; sigsplit <hex> -> <r> <s>|err  (Verify's split)
+  msdefault <k,k,..> / msmajority <k,k,..>  -> <hex>|err   CreateDefault/MajorityMultiSigRedeemScript
+  sigverify <k> <sig hex> <0|1>     -> 0|1     (*PublicKey).Verify with ecdsa.Verify's answer on the first 64 bytes supplied
+  privdec <hex>                     -> <D hex 32>|err   NewPrivateKeyFromBytes(..).Bytes()
   nep2enc <priv> <pass> <addr> <dk> <enc>   -> <hexstr>      NEP2Encrypt with the primitives' results supplied
   nep2dec <str> <pass> <dk> <dec> <addr>    -> <priv>|err    NEP2Decrypt with the primitives' results supplied
 -/
@@ -35,6 +38,7 @@ import NeoModel.Model.Codec.Script
 import NeoModel.Model.Codec.MsSort
 import NeoModel.Model.Codec.PubKey
 import NeoModel.Model.Codec.Nep2
+import NeoModel.Model.Codec.KeysMisc
 import NeoModel.Generated.CodecConsts
 open NeoModel NeoModel.Codec
 
@@ -174,6 +178,18 @@ def step (s : Unit) (ws : List String) : Unit × String :=
   | ["pkcmp", a, b] => (match parseKey a, parseKey b with
     | some a, some b => (match pkCmp a b with | .lt => "-1" | .eq => "0" | .gt => "1")
     | _, _ => "bad-op")
+  | ["msdefault", ks] => (match parseKeys ks with
+    | some ks => optHex (createDefaultMultiSigK ks)
+    | none => "bad-op")
+  | ["msmajority", ks] => (match parseKeys ks with
+    | some ks => optHex (createMajorityMultiSigK ks)
+    | none => "bad-op")
+  | ["sigverify", k, h, e] => (match parseKey k, Hex.decode h with
+    | some k, some sg => if verifyLayout k sg (fun _ _ => e == "1") then "1" else "0"
+    | _, _ => "bad-op")
+  | ["privdec", h] => withHex h fun b => (match privFromBytes b with
+    | some d => Hex.encode (privBytes d)
+    | none => "err")
   | ["pubdec", cn, h] => (match curveByName cn, Hex.decode h with
     | some C, some b => (match decodePub C b with
       | some (x, y) => Hex.encode (beBytes 32 x ++ beBytes 32 y)
